@@ -23,7 +23,7 @@ pub fn property() -> Property {
             "kernel loopback delivers UDP datagrams up to 65507 bytes in lock-step without loss",
             "reference UDP-over-TCP framing (sing-box v2 connect format) in this module",
         ],
-        families: vec![(Box::new(TunnelFam), 150, 1_500), (Box::new(RelayFam), 1_500, 10_000), (Box::new(ClientRelayFam), 24, 300)],
+        families: vec![(Box::new(TunnelFam), 150, 6_000), (Box::new(RelayFam), 1_500, 60_000), (Box::new(ClientRelayFam), 24, 300)],
     }
 }
 
